@@ -444,6 +444,41 @@ Proof.
   assert (Hd : n_ts en <? now - rep = true) by lia. rewrite Hd. discriminate.
 Qed.
 
+(* generalisation: the alert is listed with a given resolved flag (false: as firing; true: as resolved) *)
+Definition notified_as (res : bool) (outs : list out) : Prop :=
+  exists r sent f, In (ONotify i r sent OK) outs /\ In f sent /\ f_id f = x /\ f_res f = res.
+Lemma notified_as_false outs : notified_as false outs <-> notified outs.
+Proof. reflexivity. Qed.
+Lemma notified_as_app_r res o1 o2 : notified_as res o2 -> notified_as res (o1 ++ o2).
+Proof. intros (r & sent & f & Hin & H). exists r, sent, f. split; [apply in_or_app; right; exact Hin|exact H]. Qed.
+Lemma notified_as_app_l res o1 o2 : notified_as res o1 -> notified_as res (o1 ++ o2).
+Proof. intros (r & sent & f & Hin & H). exists r, sent, f. split; [apply in_or_app; left; exact Hin|exact H]. Qed.
+
+Lemma retry_phase_as (res : bool) h : forall s s' outs g fl r sent F R n f,
+  run cfg s h = Some (s', outs) -> fair h ->
+  s_group s = Some g -> gr_flight g = Some fl -> fl_chains fl !! i = Some (CRetry r sent F R n) ->
+  In f sent -> f_id f = x -> f_res f = res ->
+  s_clock s <= fl_deadline fl -> fl_deadline fl < s_clock s' -> notified_as res outs.
+Proof.
+  induction h as [|[t e] h IH]; intros s s' outs g fl r sent F R n f H Hfair Hg Hf Hc Hin Hid Hres Hle Hlt;
+    cbn [run] in H.
+  - inversion H; subst. lia.
+  - destruct (step cfg s t e) as [[s1 o1]|] eqn:Hs; [|discriminate].
+    destruct (run cfg s1 h) as [[s2 o2]|] eqn:Hr; [|discriminate]. injection H as <- <-.
+    pose proof (flight_bounded _ _ _ _ _ _ _ _ Hs Hg Hf) as Hb.
+    pose proof (step_time _ _ _ _ _ _ Hs) as [_ Hclk].
+    destruct (retry_chain_persists _ _ _ _ _ _ _ _ _ _ _ _ _ _ Hs Hg Hf Hc)
+      as [(oc & ->)|[(-> & _)|(g' & fl' & n' & Hg' & Hf' & Hc' & Hd')]].
+    + assert (oc = OK) as ->.
+      { destruct Hfair as (_ & _ & H3 & _). apply (H3 t). left. reflexivity. }
+      apply notified_as_app_l. unfold step in Hs. destruct (time_ok s t); [|discriminate]. cbn [negb] in Hs.
+      rewrite Hg, Hf, Hc in Hs. destruct (g_ints cfg !! i); [|discriminate]. destruct (s_nflog s !! i); [|discriminate].
+      inversion Hs; subst. exists r, sent, f. split; [left; reflexivity|auto].
+    + exfalso. destruct Hfair as (_ & _ & _ & H4). apply (H4 t). left. reflexivity.
+    + apply notified_as_app_r.
+      apply (IH s1 _ o2 g' fl' r sent F R n' f Hr (fair_tail _ _ Hfair) Hg' Hf' Hc' Hin Hid Hres); lia.
+Qed.
+
 Lemma wait_phase_due h : forall s s' outs g fl f en,
   run cfg s h = Some (s', outs) -> fair h -> no_log_ops h ->
   s_group s = Some g -> gr_flight g = Some fl -> fl_chains fl !! i = Some CWait ->
@@ -536,6 +571,101 @@ Proof.
         [rewrite Htick; exact Hdue|lia|lia].
 Qed.
 
+Lemma wait_phase_forced (res : bool) h : forall s s' outs g fl f en,
+  run cfg s h = Some (s', outs) -> fair h -> no_log_ops h ->
+  s_group s = Some g -> gr_flight g = Some fl -> fl_chains fl !! i = Some CWait ->
+  In f (fl_post fl) -> f_id f = x -> f_res f = res ->
+  s_nflog s !! i = Some (Some en) ->
+  (forall ic, g_ints cfg !! i = Some ic ->
+     needs_update (Some en) (ids_of false (fl_post fl)) (ids_of true (fl_post fl)) (i_send_resolved ic) (g_repeat cfg) (fl_tick fl) <> RNo /\
+     (i_send_resolved ic = true \/ f_res f = false)) ->
+  s_clock s <= fl_deadline fl -> fl_deadline fl < s_clock s' -> notified_as res outs.
+Proof.
+  induction h as [|[t e] h IH]; intros s s' outs g fl f en H Hfair Hnl Hg Hf Hc Hin Hid Hres Hen Hforce Hle Hlt;
+    cbn [run] in H.
+  - inversion H; subst. lia.
+  - destruct (step cfg s t e) as [[s1 o1]|] eqn:Hs; [|discriminate].
+    destruct (run cfg s1 h) as [[s2 o2]|] eqn:Hr; [|discriminate]. injection H as <- <-.
+    pose proof (flight_bounded _ _ _ _ _ _ _ _ Hs Hg Hf) as Hb.
+    pose proof (step_time _ _ _ _ _ _ Hs) as [_ Hclk].
+    pose proof (nflog_frame _ _ _ _ _ Hs) as Hfr.
+    destruct (flight_frame _ _ _ _ _ _ _ Hs Hg Hf)
+      as [->|(g' & fl' & Hg' & Hf' & Hpost & _ & Hd' & _ & _ & Htg)].
+    { exfalso. unfold step in Hs. destruct (time_ok s t); [|discriminate]. cbn [negb] in Hs. rewrite Hg, Hf in Hs.
+      rewrite (chain_not_done_blocks_end _ _ _ Hc eq_refl) in Hs. discriminate. }
+    destruct Htg as [[->|[(oc & ->)| ->]]|Hsame].
+    + unfold step in Hs. destruct (time_ok s t); [|discriminate]. cbn [negb] in Hs.
+      rewrite Hg, Hf, Hc in Hs. destruct (g_ints cfg !! i) as [ic|] eqn:Hic; [|discriminate]. rewrite Hen in Hs.
+      destruct (Hforce ic eq_refl) as [Hne Hsr].
+      destruct (bool_decide _) eqn:Hno; [apply bool_decide_eq_true in Hno; contradiction|].
+      assert (Hnts : negb (i_send_resolved ic) && is_nil (ids_of false (fl_post fl)) = false).
+      { destruct Hsr as [->|Hfr0]; [reflexivity|].
+        assert (HxF : In x (ids_of false (fl_post fl))) by (apply In_ids_of; exists f; auto).
+        destruct (ids_of false (fl_post fl)); [destruct HxF|]. apply andb_false_r. }
+      rewrite Hnts in Hs. injection Hs as <- <-. apply notified_as_app_r.
+      match goal with Hr' : run cfg ?s1 h = Some _ |- _ =>
+        match s1 with context [with_chain fl i (CRetry ?r ?sent ?F ?R 0)] =>
+          apply (retry_phase_as res h s1 _ o2 (with_flight g (with_chain fl i (CRetry r sent F R 0)))
+                   (with_chain fl i (CRetry r sent F R 0)) r sent F R 0%nat f Hr' (fair_tail _ _ Hfair) eq_refl eq_refl)
+        end end.
+      * cbn [fl_chains with_chain]. rewrite set_nth_lookup. destruct (decide (i = i)); [|congruence].
+        destruct (decide _) as [_|Hn]; [reflexivity|].
+        exfalso. apply Hn. apply lookup_lt_Some in Hc. exact Hc.
+      * destruct (i_send_resolved ic) eqn:Esr; [exact Hin|]. apply In_filter_b. split; [exact Hin|].
+        destruct Hsr as [Hc'|Hfr0]; [discriminate|]. rewrite Hfr0. reflexivity.
+      * exact Hid.
+      * exact Hres.
+      * cbn. lia.
+      * cbn. lia.
+    + exfalso. unfold step in Hs. destruct (time_ok s t); [|discriminate]. cbn [negb] in Hs.
+      rewrite Hg, Hf, Hc in Hs. discriminate.
+    + exfalso. destruct Hfair as (_ & _ & _ & H4). apply (H4 t). left. reflexivity.
+    + rewrite Hc in Hsame. pose proof Hpost as Hpost'. rewrite <- Hpost in Hin.
+      assert (Hen' : s_nflog s1 !! i = Some (Some en)).
+      { destruct Hfr as [Ht|[Hl|Heq]].
+        - (* a targeting event would have changed chain i *)
+          exfalso. destruct Ht as [->|[(oc & ->)| ->]]; unfold step in Hs;
+            (destruct (time_ok s t); [|discriminate]); cbn [negb] in Hs; rewrite Hg, Hf, Hc in Hs.
+          + destruct (g_ints cfg !! i); [|discriminate]. rewrite Hen in Hs.
+            destruct (bool_decide _); [|destruct (_ && _)]; injection Hs as <- <-; cbn in Hg'; injection Hg' as <-;
+              cbn in Hf'; injection Hf' as <-; cbn [fl_chains with_chain] in Hsame;
+              rewrite set_nth_lookup in Hsame; (destruct (decide (i = i)); [|congruence]);
+              (destruct (decide _) as [_|Hn]; [discriminate|apply Hn; apply lookup_lt_Some in Hc; exact Hc]).
+          + discriminate.
+          + destruct (t <? fl_deadline fl); [discriminate|]. injection Hs as <- <-. cbn in Hg'. injection Hg' as <-.
+            cbn in Hf'. injection Hf' as <-. cbn [fl_chains with_chain] in Hsame.
+            rewrite set_nth_lookup in Hsame. destruct (decide (i = i)); [|congruence].
+            destruct (decide _) as [_|Hn]; [discriminate|apply Hn; apply lookup_lt_Some in Hc; exact Hc].
+        - exfalso. apply (Hnl t e); [left; reflexivity|exact Hl].
+        - rewrite Heq. exact Hen. }
+      assert (Htick : fl_tick fl' = fl_tick fl).
+      { clear -Hs Hg Hf Hg' Hf'. unfold step in Hs. destruct (time_ok s t); [|discriminate]. cbn [negb] in Hs.
+        rewrite Hg in Hs.
+        destruct e as [a|tau sup|j|j oc|j| | |j en'|j en'|]; try rewrite Hf in Hs; try discriminate.
+        - injection Hs as <- <-. cbn in Hg'. injection Hg' as <-. cbn in Hf'. congruence.
+        - destruct (fl_chains fl !! j) as [c|]; [|discriminate]. destruct c; try discriminate.
+          destruct (g_ints cfg !! j); [|discriminate]. destruct (s_nflog s !! j); [|discriminate].
+          destruct (bool_decide _); [|destruct (_ && _)]; injection Hs as <- <-; cbn in Hg'; injection Hg' as <-;
+            cbn in Hf'; injection Hf' as <-; reflexivity.
+        - destruct (fl_chains fl !! j) as [c|]; [|discriminate]. destruct c; try discriminate.
+          destruct (g_ints cfg !! j); [|discriminate]. destruct (s_nflog s !! j); [|discriminate].
+          destruct oc; injection Hs as <- <-; cbn in Hg'; injection Hg' as <-; cbn in Hf'; injection Hf' as <-; reflexivity.
+        - destruct (fl_chains fl !! j) as [c|]; [|discriminate].
+          destruct c; try discriminate; (destruct (t <? fl_deadline fl); [discriminate|]); injection Hs as <- <-;
+            cbn in Hg'; injection Hg' as <-; cbn in Hf'; injection Hf' as <-; reflexivity.
+        - destruct (negb _); [discriminate|]. destruct (forallb chain_ok _); [destruct (is_nil _)|];
+            injection Hs as <- <-; cbn in Hg'; try discriminate; injection Hg' as <-; cbn in Hf'; discriminate.
+        - injection Hs as <- <-. cbn in Hg'. try rewrite Hg in Hg'. injection Hg' as <-. congruence.
+        - destruct (s_nflog s !! j); [|discriminate]. injection Hs as <- <-. cbn in Hg'. try rewrite Hg in Hg'.
+          injection Hg' as <-. congruence.
+        - destruct (s_nflog s !! j); [|discriminate]. injection Hs as <- <-. cbn in Hg'. try rewrite Hg in Hg'.
+          injection Hg' as <-. congruence.
+        - injection Hs as <- <-. cbn in Hg'. try rewrite Hg in Hg'. injection Hg' as <-. congruence. }
+      apply notified_as_app_r.
+      apply (IH s1 _ o2 g' fl' f en Hr (fair_tail _ _ Hfair) (no_log_ops_tail _ _ Hnl) Hg' Hf' Hsame Hin Hid Hres Hen');
+        [rewrite Htick, Hpost'; exact Hforce|lia|lia].
+Qed.
+
 Lemma idle_phase_due h : forall s s' outs g M en,
   run cfg s h = Some (s', outs) -> fair h -> no_log_ops h ->
   s_group s = Some g -> gr_flight g = None -> has_x g ->
@@ -596,6 +726,101 @@ Proof.
         - rewrite Heq. exact Hen. }
       apply notified_app_r.
       apply (IH s1 s' o2 g' M en Hr (fair_tail _ _ Hfair) (no_log_ops_tail _ _ Hnl) Hg' Hf' Hx' Hen'); try assumption; try lia.
+Qed.
+
+(* ------------------------------------------------------------------------------------------------------------ *)
+(* C05: resolution is reported by the next flush.  The group is idle and holds x RESOLVED (its end time has        *)
+(* passed); the log entry of integration i (send_resolved on) lists x as firing and not as resolved; nobody        *)
+(* re-fires x: then the flush at the armed deadline notifies i with a batch listing x as resolved, by              *)
+(* deadline + timeout.                                                                                              *)
+(* ------------------------------------------------------------------------------------------------------------ *)
+Lemma needs_update_resolved en F R rep now :
+  In x R -> In x (n_firing en) -> ~ In x (n_resolved en) -> needs_update (Some en) F R true rep now <> RNo.
+Proof.
+  intros HR Hf Hnr. unfold needs_update.
+  destruct (subset F (n_firing en)); cbn [negb]; [|destruct (is_nil (n_firing en)); discriminate].
+  destruct (is_nil F).
+  - destruct (n_firing en); [destruct Hf|discriminate].
+  - assert (Hs : subset R (n_resolved en) = false).
+    { destruct (subset R (n_resolved en)) eqn:E; [|reflexivity]. exfalso. apply Hnr.
+      apply (proj1 (subset_spec _ _) E). exact HR. }
+    rewrite Hs. cbn. discriminate.
+Qed.
+
+Definition has_x_resolved (s : gstate) (g : group) : Prop :=
+  exists a, In a (gr_alerts g) /\ a_id a = x /\ a_ends a <> 0 /\ a_ends a <= s_clock s.
+Definition no_update_of_x (h : list (Z * ev)) : Prop := forall t b, In (t, EInsert b) h -> a_id b <> x.
+
+Lemma idle_phase_resolved h : forall s s' outs g M en,
+  run cfg s h = Some (s', outs) -> fair h -> no_log_ops h -> no_update_of_x h ->
+  s_group s = Some g -> gr_flight g = None -> has_x_resolved s g ->
+  s_nflog s !! i = Some (Some en) -> In x (n_firing en) -> ~ In x (n_resolved en) ->
+  (forall ic, g_ints cfg !! i = Some ic -> i_send_resolved ic = true) ->
+  Z.max (gr_deadline g) (s_clock s) <= M -> (i < length (g_ints cfg))%nat -> 0 <= g_timeout cfg ->
+  M + g_timeout cfg < s_clock s' -> notified_as true outs.
+Proof.
+  induction h as [|[t e] h IH]; intros s s' outs g M en H Hfair Hnl Hnu Hg Hf Hx Hen Hfi Hnr Hsr HM Hi Hto Hlt;
+    cbn [run] in H.
+  - inversion H; subst. lia.
+  - destruct (step cfg s t e) as [[s1 o1]|] eqn:Hs; [|discriminate].
+    destruct (run cfg s1 h) as [[s2 o2]|] eqn:Hr; [|discriminate]. inversion H; subst.
+    pose proof (overdue_impossible _ _ _ _ _ _ _ Hs Hg Hf) as Hb.
+    pose proof (step_time _ _ _ _ _ _ Hs) as [Hge Hclk].
+    pose proof (nflog_frame _ _ _ _ _ Hs) as Hfr.
+    assert (Hnu' : no_update_of_x h) by (intros t' b' Hin'; apply (Hnu t' b'); right; exact Hin').
+    destruct (idle_step _ _ _ _ _ _ _ Hs Hg Hf) as [(sup & ->)|(g' & Hg' & Hf' & Hd')].
+    + assert (Hnsup : ~ In x sup).
+      { destruct Hfair as (_ & H2 & _). apply (H2 t (gr_deadline g)). left. reflexivity. }
+      destruct Hx as (a & Hina & Hida & Hne0 & Hends).
+      unfold step in Hs. destruct (time_ok s t); [|discriminate]. cbn [negb] in Hs. rewrite Hg, Hf in Hs.
+      destruct (_ && _); [|discriminate]. cbn [negb] in Hs.
+      set (all := sort_f (map (freeze t) (gr_alerts g))) in *.
+      set (post := filter (fun f => negb (bool_decide (f_id f ∈ sup))) all) in *.
+      assert (Hfrz : In (freeze t a) post).
+      { apply In_filter_b. split.
+        - apply In_sort_f. apply in_map. exact Hina.
+        - cbn. rewrite Hida. apply negb_true_iff. apply bool_decide_eq_false. intros Hel.
+          apply Hnsup. apply elem_of_list_In. exact Hel. }
+      assert (Hresf : f_res (freeze t a) = true).
+      { cbn. unfold resolved_at. destruct (a_ends a =? 0) eqn:E0; [lia|]. cbn. lia. }
+      assert (Hnil : is_nil post = false) by (destruct post; [destruct Hfrz|reflexivity]).
+      rewrite Hnil in Hs. injection Hs as <- <-. apply notified_as_app_r.
+      apply (wait_phase_forced true h _ s' o2 _ _ (freeze t a) en Hr (fair_tail _ _ Hfair) (no_log_ops_tail _ _ Hnl) eq_refl eq_refl).
+      * cbn. rewrite list_lookup_fmap. destruct (g_ints cfg !! i) eqn:Hl; [reflexivity|].
+        apply lookup_ge_None in Hl. lia.
+      * exact Hfrz.
+      * exact Hida.
+      * exact Hresf.
+      * cbn [s_nflog]. exact Hen.
+      * intros ic Hic. cbn [fl_post fl_tick]. rewrite (Hsr ic Hic). split; [|left; reflexivity].
+        apply needs_update_resolved; [|exact Hfi|exact Hnr].
+        apply In_ids_of. exists (freeze t a). auto.
+      * cbn. lia.
+      * cbn. lia.
+    + assert (Hx' : has_x_resolved s1 g').
+      { destruct Hx as (a & Hina & Hida & Hne0 & Hends).
+        destruct e as [b|tau sup|j|j oc|j| | |j en'|j en'|];
+          unfold step in Hs; (destruct (time_ok s t); [|discriminate]); cbn [negb] in Hs; rewrite Hg in Hs;
+          try (rewrite Hf in Hs; discriminate).
+        - injection Hs as <- <-. cbn in Hg'. injection Hg' as <-. exists a. cbn.
+          split; [|split; [exact Hida|split; [exact Hne0|lia]]].
+          apply store_set_others; [exact Hina|]. rewrite Hida. intros E. apply (Hnu t b); [left; reflexivity|congruence].
+        - rewrite Hf in Hs. destruct (_ && _); [|discriminate]. cbn [negb] in Hs. injection Hs as <- <-.
+          cbn in Hg'. injection Hg' as <-. cbn in Hf'. discriminate.
+        - injection Hs as <- <-. cbn in Hg'. injection Hg' as <-. exists a. cbn. repeat split; auto; lia.
+        - destruct (s_nflog s !! j); [|discriminate]. injection Hs as <- <-. cbn in Hg'. injection Hg' as <-.
+          exists a. cbn. repeat split; auto; lia.
+        - destruct (s_nflog s !! j); [|discriminate]. injection Hs as <- <-. cbn in Hg'. injection Hg' as <-.
+          exists a. cbn. repeat split; auto; lia.
+        - injection Hs as <- <-. cbn in Hg'. injection Hg' as <-. exists a. cbn. repeat split; auto; lia. }
+      assert (Hen' : s_nflog s1 !! i = Some (Some en)).
+      { destruct Hfr as [Ht|[Hl|Heq]].
+        - exfalso. destruct Ht as [->|[(oc & ->)| ->]]; unfold step in Hs;
+            (destruct (time_ok s t); [|discriminate]); cbn [negb] in Hs; rewrite Hg, Hf in Hs; discriminate.
+        - exfalso. apply (Hnl t e); [left; reflexivity|exact Hl].
+        - rewrite Heq. exact Hen. }
+      apply notified_as_app_r.
+      apply (IH s1 s' o2 g' M en Hr (fair_tail _ _ Hfair) (no_log_ops_tail _ _ Hnl) Hnu' Hg' Hf' Hx' Hen' Hfi Hnr Hsr); try assumption; try lia.
 Qed.
 
 End Liveness.
